@@ -201,7 +201,16 @@ def check_diagnostics(run, impl_exe, cli, tier, rng):
                 run.count('diag_ok_programs')
                 continue
             run.count('diag_' + f[1])
-            spans = [s for s in f[5][2:].split(';') if s and s != '-']
+            sfield = [x for x in f if x.startswith('S=')]
+            if not sfield:
+                run.violation('diag-harness', 'harness answer without span field: %s' % r[:120], {'kind': 'diag', 'source_hex': hxl(list(src)), 'opts': fields[0]}, concrete=False)
+                continue
+            raw = [s for s in sfield[0][2:].split(';') if s]
+            # the first entry is the error's own (primary) span, '-' when the error kind carries none
+            # (e.g. stack overflow); the rest are the spans of the stack-trace entries
+            primary = raw[0] if raw and raw[0] != '-' else None
+            spans = [s for s in raw if s != '-']
+            run.count('diag_spans_checked', len(spans))
             bad = None
             for s in spans:
                 c, a, b, ln = s.split(':')
@@ -216,7 +225,8 @@ def check_diagnostics(run, impl_exe, cli, tier, rng):
             # CLI rendering, plain and coloured, with cropping
             path = os.path.join(tmp, 'prog.jsonnet')
             open(path, 'wb').write(src)
-            ntrace = int(f[8][2:], 16) if len(f) > 8 and f[8].startswith('N=') else 0
+            nfield = [x for x in f if x.startswith('N=')]
+            ntrace = int(nfield[0][2:], 16) if nfield else 0
             crops = sorted(set([None, 0, 1, 2, 3, max(0, ntrace - 1), ntrace, ntrace + 1]), key=lambda x: -1 if x is None else x)
             if tier != 'thorough':
                 crops = [None] + [c for c in crops if c is not None][:3]
@@ -247,9 +257,9 @@ def check_diagnostics(run, impl_exe, cli, tier, rng):
                         problem = 'stdout not empty on failure'
                     elif 'error' not in plain:
                         problem = 'no error report on stderr'
-                    elif spans and spans[0].split(':')[0] != 'std':
+                    elif primary and primary.split(':')[0] != 'std':
                         m = re.search(r'--> ([^\n]*):(\d+):(\d+)\n', plain)
-                        c0, a0, b0, ln0 = spans[0].split(':')
+                        c0, a0, b0, ln0 = primary.split(':')
                         if not m:
                             problem = 'report does not name file:line:col'
                         elif c0 == '0':
